@@ -10,8 +10,9 @@
    Domain flags of the final state: x_rb = a fault hit the ROLLBACK TO of a failing nested block
    (outside the property: the database refused to undo); x_drop = the dialector dropped a
    save-point error (breaks gorm's SavePointerDialectorInterface contract; never set when
-   c_report C = true); x_spign = a nested block's SAVEPOINT failed and the enclosing function
-   went on (where the model — and gorm — violate the property, see the _refuted theorem). *)
+   c_report C = true).  The model follows /repo after fix 1c49b86 (the nested branch calls
+   SavePoint / RollbackTo on db.Session(&Session{}), so their errors no longer stick to the
+   enclosing handle); before it the result/usability theorem needed an extra hypothesis. *)
 From Verif Require Import Base C04_Model C04_Check C04_Proofs C04_Proofs2 C04_Proofs3 C04_Proofs4 C04_Proofs5 C04_Proofs6.
 Open Scope Z_scope.
 
@@ -30,31 +31,30 @@ Theorem c04_atomic : forall E,
 Proof. exact top_atomic. Qed.
 Print Assumptions c04_atomic.
 
-(* RESULT and USABILITY (partial: needs x_spign = false). The outermost call returns nil iff
-   the function returned nil and COMMIT succeeded, returns the function's error / panic
-   unchanged, returns the BEGIN / COMMIT fault as is; every statement or SavePoint call that
-   reports an error was hit by an injected fault and reports exactly it (a failing nested block
-   leaves the enclosing transaction usable). *)
-Theorem c04_result_usable_partial : forall E,
+(* RESULT and USABILITY. The outermost call returns nil iff the function returned nil and COMMIT
+   succeeded, returns the function's error / panic unchanged, returns the BEGIN / COMMIT fault as
+   is; every statement or SavePoint call that reports an error was hit by an injected fault and
+   reports exactly it (a failing nested block — also one whose SAVEPOINT failed and whose error
+   the enclosing function ignores — leaves the enclosing transaction usable). *)
+Theorem c04_result_usable : forall E,
   (forall n t, sq_save E n t = ref_save n t) ->
   (forall n t, sq_rbto E n t = ref_rbto n t) ->
   forall C fault manual p extra db0 o x s,
   run_top E C fault manual p extra (init_st db0) = (o, x, s) ->
   scoped [] p = true -> x_rb (s_fl s) = false -> x_drop (s_fl s) = false ->
-  x_spign (s_fl s) = false ->
   top_ok o (rev (s_ops s)) = true /\ usable o (rev (s_ops s)) = true.
 Proof. exact top_result. Qed.
-Print Assumptions c04_result_usable_partial.
+Print Assumptions c04_result_usable.
 
-(* ... and without that hypothesis the statement is false of the model (and of gorm: the
-   witness is corpus/C04/sticky_savepoint_error.json, a known finding) *)
-Theorem c04_result_usable_refuted :
-  exists C p k, scoped [] p = true /\
-    let '(o, x, s) := run_top ref_env C (fault_at (Some k)) false p [] (init_st []) in
-    x_rb (s_fl s) = false /\ x_drop (s_fl s) = false /\ x_spign (s_fl s) = true /\
-    s_db s = [1] /\ top_ok o (rev (s_ops s)) = false /\ usable o (rev (s_ops s)) = false.
-Proof. exact sticky_witness. Qed.
-Print Assumptions c04_result_usable_refuted.
+(* the input of the former finding (a SAVEPOINT fault ignored by the enclosing function; it
+   violated this theorem's statement before fix 1c49b86) now satisfies it, non-vacuously *)
+Theorem c04_former_sticky_savepoint_input_ok :
+  scoped [] sticky_prog = true /\
+  let '(o, x, s) := run_top ref_env cfg_default (fault_at (Some 2%nat)) false sticky_prog [] (init_st []) in
+  x_rb (s_fl s) = false /\ x_drop (s_fl s) = false /\
+  s_db s = [1; 3] /\ top_ok o (rev (s_ops s)) = true /\ usable o (rev (s_ops s)) = true.
+Proof. exact sticky_now_ok. Qed.
+Print Assumptions c04_former_sticky_savepoint_input_ok.
 
 (* atomicity is false for a dialector that drops save-point errors (x_drop): the stock SQLite
    dialector of gorm.io/driver/sqlite (witness: corpus/C04/stock_dialector_drops_savepoint_error.json) *)
@@ -74,7 +74,7 @@ Theorem c04_spec_holds : forall E,
   forall C fault manual p extra o x s,
   run_top E C fault manual p extra (init_st []) = (o, x, s) ->
   scoped [] p = true ->
-  x_rb (s_fl s) = false -> x_drop (s_fl s) = false -> x_spign (s_fl s) = false ->
+  x_rb (s_fl s) = false -> x_drop (s_fl s) = false ->
   spec_holds (mk_case manual p extra C None o x (s_db s)
                 (fst (pool E (rev (s_txlog s)))) (snd (pool E (rev (s_txlog s)))) (rev (s_ops s))) = true.
 Proof. exact spec_holds_model. Qed.
@@ -89,9 +89,9 @@ Theorem c04_propagation : forall E C fault manual p extra s0 o x s,
 Proof. exact propagation. Qed.
 Print Assumptions c04_propagation.
 
-(* NESTED ISOLATION: a nested block that fails undoes exactly its own writes (the transaction
-   sees the table as when the block started, the program's save points are untouched) and the
-   enclosing handle carries no error *)
+(* NESTED ISOLATION: a nested call always hands the enclosing handle back exactly as it was;
+   when its function fails it undoes exactly its own writes (the transaction sees the table as
+   when the block started, the program's save points are untouched) *)
 Theorem c04_nested_isolated : forall E,
   (forall n t, sq_save E n t = ref_save n t) ->
   (forall n t, sq_rbto E n t = ref_rbto n t) ->
@@ -100,9 +100,8 @@ Theorem c04_nested_isolated : forall E,
   nested E C fault (run_body E C fault b) h s = (r, o, h1, s1) ->
   s_tx s = Some (mkTx t stk) -> gen_ok (s_gen s) stk ->
   x_rb (s_fl s1) = false -> x_drop (s_fl s1) = false ->
-  forall l x, o = OC true l x (cls_of r) -> is_ok r = false ->
-  exists stk', s_tx s1 = Some (mkTx t stk') /\ fu stk' = fu stk
-               /\ (h = None -> x_spign (s_fl s1) = false -> h1 = None).
+  h1 = h /\
+  (is_ok r = false -> exists stk', s_tx s1 = Some (mkTx t stk') /\ fu stk' = fu stk).
 Proof. exact nested_isolated. Qed.
 Print Assumptions c04_nested_isolated.
 
@@ -145,5 +144,5 @@ Print Assumptions c04_ref_env_laws.
 Example c04_instance :
   scoped [] demo_prog = true /\
   let '(o, x, s) := run_top ref_env cfg_default (fault_at (Some 12%nat)) false demo_prog [] (init_st []) in
-  x_rb (s_fl s) = false /\ x_drop (s_fl s) = false /\ x_spign (s_fl s) = false /\ s_db s = [1; 6].
+  x_rb (s_fl s) = false /\ x_drop (s_fl s) = false /\ s_db s = [1; 6].
 Proof. exact demo_instance. Qed.
